@@ -180,6 +180,17 @@ def run_query(case, drv):
     tags = dict(order=str(case["order"]), joint=case["joint"], shape=case["shape"], n=len(names), nev=len(case["ev"]),
                 virt=len(case["virt"]), latents=len(case.get("latents", [])), rare=bool(case.get("rare")))
     ev_before = dict(evidence)
+    if len(case["ev"]) >= 2 and not case["virt"] and (len(case["ev"]) + len(case["q"])) % 2:
+        # the engine has answered the same question for OTHER evidence before: the same variables written in the opposite key order,
+        # with the state indices of this query handed round by one position (an answer belongs to its variable -> state pairs)
+        try:
+            vs_ = [v for v, _ in case["ev"]]
+            idx_ = [i for _, i in case["ev"]]
+            rot = idx_[1:] + idx_[:1]
+            other_ = {pn[v]: gen.lab(labels[v][i % card[v]]) for v, i in reversed(list(zip(vs_, rot)))}
+            ve.query([pn[v] for v in case["q"]], evidence=other_, elimination_order=order, joint=case["joint"], show_progress=False)
+        except Exception:
+            pass
     try:
         # (an empty dict is a legal way of saying "no evidence" and is handed over as such half of the time)
         res = ve.query([pn[v] for v in case["q"]], evidence=evidence if (evidence or len(case["q"]) % 2) else None, elimination_order=order,
